@@ -77,6 +77,9 @@ class Check:
             print("UNDECIDED rule=%s site=%s %s" % (o["key"], o["site"], o["detail"]))
         n_ob = len(self.obs)
         n_ok = len([o for o in self.obs if o["verdict"] == "ok"])
+        if os.environ.get("VERIF_LIST"):
+            for o in self.obs:
+                print("OB %s %s %s | %s" % (o["verdict"], o["key"], o["site"], o["detail"][:160]))
         samples = []
         for o in self.obs:
             if len(samples) < 12 and (o["verdict"] != "ok" or len(samples) < 8):
@@ -93,6 +96,7 @@ class Check:
             "violations": len(real),
             "rule": self.rule_text,
             "samples": samples,
+            "obligation_keys": ["%s=%s" % (o["key"], o["verdict"]) for o in self.obs],
             "analysed": self.analysed,
             "floors": self.floors,
             "explanation": (
